@@ -18,7 +18,9 @@ on every transition lib_phi(g s) = lib_phi(g) @ lib_phi(s) with the value comput
 state; phi(1) = 1; the Killing form reported by the library is a positive multiple of the spec's
 trace form and is preserved by the adjoint.  o_to_pgl / Isometry.to_sl2: recovers +-g from the
 image of g (determinant one) and is multiplicative up to sign on every transition, also on -X
-and on images of determinant -1.  lie.hom wrappers return what the wrapped map returns.  Storage dtype: every real matrix is also
+and on images of determinant -1; for the spec's pool of other forms B = C^T J C of signature (2,1)
+(multiples of J, diagonal and non-diagonal) o_to_pgl(C^-1 X C, bilinear_form=B) is multiplicative up to
+sign on every transition and has the determinant and |trace| of g (+-g itself for multiples of J).  lie.hom wrappers return what the wrapped map returns.  Storage dtype: every real matrix is also
 passed as an int64 array to the maps that accept integer input (adjoints, realification, Hermitian
 action, SO(3,1), block inclusion) and must give the float64 result; the walks in non-unimodular
 integer matrices make the adjoint images non-integral.  The product law is not restricted to the
@@ -43,7 +45,7 @@ from .. import core
 
 MODULE = "lie/LieHom.tla"
 TOL = 1e-9
-INVS = ["HomLaw", "InverseLaw", "GroupElement", "IrrepDet", "So21Laws", "So31Laws", "AdjointLaws", "RealLaws",
+INVS = ["HomLaw", "InverseLaw", "GroupElement", "IrrepDet", "So21Laws", "FormPoolLaws", "So31Laws", "AdjointLaws", "RealLaws",
         "EmitObs"]
 # maps whose matrix is fixed by the documentation (basis stated) / only the target group is documented
 FORM_ONLY = {"so21": np.diag([-1.0, 1, 1]), "so31": np.diag([-1.0, 1, 1, 1])}
@@ -263,6 +265,33 @@ def pgl_checks(run, A, X, det1):
     return R, None
 
 
+def pgl_forms(run, A, X, forms):
+    """o_to_pgl(C^-1 X C, bilinear_form=C^T J C) for the spec's pool of forms of signature (2,1): list of results"""
+    L = lie()
+    out = []
+    for fr in forms:
+        C = np.array(fr["C"], dtype=float)
+        B = np.array(fr["B"], dtype=float)
+        try:
+            with warnings.catch_warnings():
+                warnings.simplefilter("ignore")
+                Ap = np.linalg.inv(C) @ X @ C
+                R = num(L.o_to_pgl(Ap, bilinear_form=B.copy()))
+        except Exception as ex:
+            return None, ("raised:o_to_pgl.form", "B = %r: %s: %s" % (fr["B"], type(ex).__name__, ex))
+        run.evaluations += 1
+        t7 = 1e-7
+        if R.shape != (2, 2) or np.iscomplexobj(R) or not np.isfinite(R).all():
+            return None, ("o_to_pgl.form.value", "B = %r: returned %r" % (fr["B"], brief(R)))
+        if not close(np.linalg.det(R), np.linalg.det(A), t7) or not close(abs(np.trace(R)), abs(np.trace(A)), t7):
+            return None, ("o_to_pgl.form.conjugacy_class", "B = %r: returned %r (det %.9g, |trace| %.9g) for g = %r"
+                          % (fr["B"], brief(R), np.linalg.det(R), abs(np.trace(R)), brief(A)))
+        if fr["scalar"] and not close_pm(R, A, t7):
+            return None, ("o_to_pgl.form.recovers", "B = %r (a multiple of the default form): returned %r for g = %r" % (fr["B"], brief(R), brief(A)))
+        out.append(R)
+    return out, None
+
+
 # ----------------------------------------------------------------------------------------
 # the walk
 # ----------------------------------------------------------------------------------------
@@ -308,7 +337,7 @@ def walk(run, grp, r):
                       dict(group=grp, word=list(path), g=brief(A), observed=detail))
 
     # generators and the identity
-    gen_vals, gen_pgl = {}, {}
+    gen_vals, gen_pgl, gen_pf = {}, {}, {}
     for nm, S in gens.items():
         o = obs.get(skey(tab["gens"][nm]))
         if o is None:
@@ -323,6 +352,9 @@ def walk(run, grp, r):
             if bad:                      # keep walking: the other maps do not depend on o_to_pgl
                 fail((nm,), bad[0], bad[1], S)
                 gen_pgl[nm] = None
+            gen_pf[nm], bad = pgl_forms(run, S, v["so21"], tab["forms"])
+            if bad:
+                fail((nm,), bad[0], bad[1], S)
     A0 = mat(obs[init]["g"])
     v0, bad = eval_state(run, grp, names, A0, obs[init], scale, ())
     if bad:
@@ -331,12 +363,15 @@ def walk(run, grp, r):
     for nm in names:
         if not close(v0[nm], np.eye(v0[nm].shape[-1])):
             fail((), "identity:" + nm, "phi(1) = %r" % (brief(v0[nm]),), A0)
-    p0 = None
+    p0 = pf0 = None
     if pgl:
         p0, bad = pgl_checks(run, A0, v0["so21"], True)
         if bad:
             fail((), bad[0], bad[1], A0)
             p0 = None
+        pf0, bad = pgl_forms(run, A0, v0["so21"], tab["forms"])
+        if bad:
+            fail((), bad[0], bad[1], A0)
     # Killing form
     if "adsl" in names:
         run.case(key=("killing", grp), action="sln_killing_form")
@@ -354,14 +389,14 @@ def walk(run, grp, r):
     else:
         K = None
 
-    state_vals = {init: (v0, p0, ())}
+    state_vals = {init: (v0, p0, (), pf0)}
     frontier = [init]
     ntrans = 0
     stack_keys = [init]
     while frontier:
         nxt = []
         for sk in frontier:
-            vals, pg, path = state_vals[sk]
+            vals, pg, path, pf = state_vals[sk]
             for act, tk in lts.get(sk, []):
                 ntrans += 1
                 p2 = path + (act,)
@@ -369,10 +404,14 @@ def walk(run, grp, r):
                 A = mat(o["g"])
                 run.actions["right:" + act] = run.actions.get("right:" + act, 0) + 1
                 if tk in state_vals:
-                    v2, pg2, _ = state_vals[tk]
+                    v2, pg2, _, pf2 = state_vals[tk]
                 else:
                     v2, bad = eval_state(run, grp, names, A, o, scale, p2)
-                    pg2 = None
+                    pg2 = pf2 = None
+                    if not bad and pgl:
+                        pf2, badf = pgl_forms(run, A, v2["so21"], tab["forms"])
+                        if badf:
+                            fail(p2, badf[0], badf[1], A)
                     if not bad and pgl:
                         pg2, badp = pgl_checks(run, A, v2["so21"], o["det"] == [1, 0])
                         if badp:
@@ -385,7 +424,7 @@ def walk(run, grp, r):
                     if bad:
                         fail(p2, bad[0], bad[1], A)
                         continue
-                    state_vals[tk] = (v2, pg2, p2)
+                    state_vals[tk] = (v2, pg2, p2, pf2)
                     stack_keys.append(tk)
                     nxt.append(tk)
                 # the homomorphism law on this transition, with the value computed in the source state
@@ -394,6 +433,13 @@ def walk(run, grp, r):
                     if not close(v2[nm], prod):
                         fail(p2, "homomorphism:" + nm, "phi(g s) = %r, phi(g) phi(s) = %r" % (brief(v2[nm]), brief(prod)), A)
                         break
+                if pgl and pf is not None and pf2 is not None and gen_pf.get(act) is not None:
+                    for fi, fr in enumerate(tab["forms"]):
+                        prod = pf[fi] @ gen_pf[act][fi]
+                        if not close_pm(pf2[fi], prod, 1e-7):
+                            fail(p2, "o_to_pgl.form.homomorphism_up_to_sign", "B = %r: o_to_pgl(X' Y') = %r, o_to_pgl(X') o_to_pgl(Y') = %r"
+                                 % (fr["B"], brief(pf2[fi]), brief(prod)), A)
+                            break
                 if grp in MIXED_GROUPS:
                     bad = mixed_products(run, names, mat(obs[sk]["g"]), gens[act])
                     if bad:
